@@ -62,6 +62,11 @@ def run(g, cfg, pid, tier, seed, work, problems):
                 missing = [k for k in refm if k not in m]
                 if missing:
                     oracle.append(("configuration-dependent-result", "config [%s] lacks %d cases of the reference, e.g. %s" % (c, len(missing), missing[0])))
+    # no entry point of any configuration may panic on a value or byte string of the corpus
+    for c, lines in digests.items():
+        bad = [l for l in lines if "PANIC" in l.split("\t")[2:]]
+        for l in bad[:5]:
+            oracle.append(("panic-in-configuration", "config [%s]: %s" % (c, l[:300])))
     with open(os.path.join(work, "oracle.tsv"), "w") as f:
         for c, d in oracle:
             f.write("%s\t%s\n" % (c, d.replace("\n", " ")))
